@@ -1458,8 +1458,9 @@ func (ctx *RenderContext) getAttribute(obj interface{}, attr string) (interface{
 		if entry.ptrMethod {
 			// Need a pointer to the struct
 			if isPtr {
-				// Object is already a pointer, use the original value
-				method = reflect.ValueOf(obj).Method(entry.methodIndex)
+				// Object is already a pointer. The method index was taken from *T, which a
+				// named pointer type (type UserPtr *User) is not: it has no methods itself
+				method = objValue.Addr().Method(entry.methodIndex)
 			} else {
 				// Create a new pointer to the struct
 				ptrValue := reflect.New(objType)
